@@ -93,7 +93,7 @@ impl<const W: usize> Corpus for Svc<W> {
         let acks = acks.sim_output();
         let resp = resp.sim_output();
         (
-            flow.sim().compiled(),
+            super::util::compile_locked(|| flow.sim().compiled()),
             Ports {
                 incs: Box::leak(Box::new(incs)),
                 gets: Box::leak(Box::new(gets)),
